@@ -18,8 +18,9 @@ THEOREMS = [
     "MoreExec.MeFuture.C02_cancel_true_sticks",
     "MoreExec.MeFuture.C02_cancel_false_when_finished",
     "MoreExec.MeFuture.C02_waiters_released",
+    "MoreExec.MeFuture.C02_cancel_sections_under_lock",
 ]
-KERNELS = []
+KERNELS = ["K2"]
 BUDGET = {"quick": 150, "thorough": 1500}
 ASSUMPTIONS = [
     "AF1: a method of the stdlib Future is atomic (it holds Future._condition throughout)",
